@@ -40,6 +40,7 @@ func (op c04Op) page() uint64 {
 }
 
 func c04Run(c c04Case) (fail *vlib.Failure, rs c04Stats) {
+	defer vlib.Guard("C04", c, nil)()
 	m := vmNew()
 	roots := []mm.Frame{m.newRoot()}
 	m.cr3 = roots[0].Address()
